@@ -3,5 +3,6 @@ CONSTANTS
   PieceLens = {0, 1, 3, 4, 5, 9}
   PeekLens = {2, 20}
   MaxLen = 12
+  MaxApp = 6
   L = 5
 CHECK_DEADLOCK FALSE
